@@ -76,6 +76,8 @@ def kernel_case(draw, maxN, maxK):
     case["w"] = draw(gens.window_vec(L))
     case["omega"] = draw(gens.omega(L))
     case["chunk"] = draw(st.sampled_from([0, 0, 1, 2, 3, 7]))     # 0: library default
+    case["aliased"] = draw(st.booleans())
+    case["reverse"] = draw(st.booleans())
     return case
 
 
@@ -83,35 +85,44 @@ def judge(case, backends):
     order, L, mode = case["order"], case["L"], case["mode"]
     if mode == "csd":
         x, y = gens.materialise_pair(case["rec"])
+        if case["rec"]["rel"] == "delay" and case.get("aliased") and int(case["rec"]["d"]) < len(x):
+            # the two records as overlapping views of ONE buffer (y[n] = x[n-d]): admissible input
+            d = int(case["rec"]["d"])
+            buf = np.concatenate([np.zeros(d), x])
+            x, y = buf[d:], buf[:len(x)]
     else:
         x, y = gens.materialise(case["rec"]), None
+    x0, y0 = x.copy(), (None if y is None else y.copy())      # pristine copies for the reference
     starts = np.asarray(case["starts"], dtype=np.int64)
     w = gens.materialise_window(case["w"])
     om = float(case["omega"])
     K = len(starts)
-    ref = refs.dft_stats(x, y, starts, L, w, om, order)
-    Sx = tol.seg_scale(x, starts, L, w, order)
-    Sy = Sx if y is None else tol.seg_scale(y, starts, L, w, order)
+    ref = refs.dft_stats(x0, y0, starts, L, w, om, order)
+    Sx = tol.seg_scale(x0, starts, L, w, order)
+    Sy = Sx if y0 is None else tol.seg_scale(y0, starts, L, w, order)
     Sxy = (Sx ** 0.5 * Sy ** 0.5)
     bx, by, bxy = tol.budget2(L, om, Sx), tol.budget2(L, om, Sy), tol.budget2(L, om, Sxy)
     b4 = tol.budget4(L, om, Sx, Sy)
     viol, got, worst = [], {}, 0.0
-    for be in backends:
+    seq = list(backends) if not case.get("reverse") else list(backends)[::-1]
+    seq = seq + [seq[0] + "#again"]
+    for be_tag in seq:
+        be = be_tag.split("#")[0]
         mxx, myy, mur, mui, m2 = call_backend(be, order, x, y, starts, L, w, om, case.get("chunk"))
-        got[be] = (mxx, myy, mur, mui, m2)
+        got[be_tag] = (mxx, myy, mur, mui, m2)
         checks = [("XX", mxx, ref["XX"], bx), ("YY", myy, ref["YY"], by),
                   ("ReXY", mur, ref["XY"].real, bxy), ("ImXY", mui, ref["XY"].imag, bxy),
                   ("M2", m2, ref["M2"], b4)]
         for name, a, b, bud in checks:
             err = abs(a - b)
             if not (err <= bud):
-                viol.append(V("stat_vs_definition", backend=be, stat=name, got=a, ref=b, budget=bud,
+                viol.append(V("stat_vs_definition", backend=be_tag, stat=name, got=a, ref=b, budget=bud,
                               order=order, mode=mode, L=L, K=K, omega=om))
             else:
                 worst = max(worst, err / bud * tol.C)   # in units of eps*L*g*S
         if mode == "auto":
             if myy != mxx or mui != 0.0 or abs(mur - mxx) > bx:
-                viol.append(V("auto_conventions", backend=be, got=[mxx, myy, mur, mui], order=order))
+                viol.append(V("auto_conventions", backend=be_tag, got=[mxx, myy, mur, mui], order=order))
     bes = list(got)
     for i in range(len(bes)):
         for j in range(i + 1, len(bes)):
@@ -120,6 +131,8 @@ def judge(case, backends):
                 if not (abs(a[k] - b[k]) <= 2 * bud):
                     viol.append(V("backends_disagree", a=bes[i], b=bes[j], stat=name, va=a[k], vb=b[k],
                                   budget=2 * bud, order=order, mode=mode))
+    if not np.array_equal(x, x0) or (y is not None and not np.array_equal(y, y0)):
+        viol.append(V("kernel_modified_its_input_record", order=order, mode=mode, L=L, K=K, backends=seq))
     conj_visible = mode == "csd" and abs(ref["XY"].imag) > 1e3 * bxy
     scatter_visible = K >= 2 and ref["M2"] > 1e3 * b4
     trend_visible = order >= 1 and L > order + 1 and ref["XX"] > 1e3 * bx
@@ -137,6 +150,8 @@ def judge(case, backends):
         labels.append("K=1")
     if case.get("chunk") and K > case["chunk"] and "numpy" in backends:
         labels.append("numpy-multi-block")
+    if mode == "csd" and case["rec"]["rel"] == "delay" and case.get("aliased"):
+        labels.append("aliased-channels")
     if K > 256 and "cuda" in backends:
         labels.append("cuda-multi-block")
     return Res(viol, nontrivial, labels, {"worst_err_in_eps_L_g_S": worst})
